@@ -21,6 +21,7 @@ package c15
 import (
 	"bytes"
 	"fmt"
+	"github.com/couchbase/moss"
 	"os"
 	"path/filepath"
 	"sort"
@@ -659,17 +660,53 @@ func classify(sname string, view []op, held bool, snap, cur content, o obs, got,
 // ---------------------------------------------------------------------------------------------
 // real stores
 
+var settleMissed atomic.Int64
+
+// mossSettle waits (bounded) until the moss collection behind st has completed one more
+// lower-level update than *seen; it only steers the driver: a missed wait is counted, not judged.
+func mossSettle(st store.KVStore, seen *uint64) bool {
+	mc, ok := st.(interface{ Collection() moss.Collection })
+	if !ok {
+		return false
+	}
+	deadline := time.Now().Add(3 * time.Second)
+	for {
+		s, err := mc.Collection().Stats()
+		if err == nil && s.TotPersisterLowerLevelUpdateEnd > *seen {
+			*seen = s.TotPersisterLowerLevelUpdateEnd
+			return true
+		}
+		if time.Now().After(deadline) {
+			return false
+		}
+		time.Sleep(200 * time.Microsecond)
+	}
+}
+
 type storeCfg struct {
 	name string
 	ctor string
 	disk bool
 	cfg  func(dir string) map[string]interface{}
+	// settle: after every batch wait until moss' background persister has handed the batch to the
+	// lower-level store (completion counter of the collection), so that reads are served from there
+	settle bool
+	// fam: class prefix of content deviations (default: name); the moss variants share "moss", so
+	// that moss' known, timing dependent deviations are recognised whichever variant meets them
+	fam string
 	// ex: batches are created with NewBatchEx and every key and value is placed in the buffer it
 	// returns, the way upsidedown's batchRows does (a separate code path in the moss adapter)
 	ex bool
 }
 
 const exSuffix = "+NewBatchEx"
+
+func (sc storeCfg) family() string {
+	if sc.fam != "" {
+		return sc.fam
+	}
+	return sc.name
+}
 
 func (sc storeCfg) label() string {
 	if sc.ex {
@@ -751,6 +788,9 @@ const ldbWriteBuffer = 64 << 10
 var stores = []storeCfg{
 	{name: "gtreap", ctor: "gtreap", cfg: func(string) map[string]interface{} { return map[string]interface{}{"path": ""} }},
 	{name: "moss", ctor: "moss", cfg: func(string) map[string]interface{} { return map[string]interface{}{} }},
+	{name: "moss-over-gtreap(maxbatch2)", ctor: "moss", settle: true, fam: "moss", cfg: func(string) map[string]interface{} {
+		return map[string]interface{}{"path": "", "mossLowerLevelStoreName": "gtreap", "mossLowerLevelMaxBatchSize": float64(2)}
+	}},
 	{name: "metrics(gtreap)", ctor: "metrics", cfg: func(string) map[string]interface{} {
 		return map[string]interface{}{"kvStoreName_actual": "gtreap", "path": ""}
 	}},
@@ -939,6 +979,7 @@ func (c *checker) exec(sc storeCfg, path []op) (res execResult) {
 	phase("construct")
 	var st store.KVStore
 	var w store.KVWriter
+	var persisted uint64
 	type openRdr struct {
 		rd       store.KVReader
 		openedAt int
@@ -974,6 +1015,11 @@ func (c *checker) exec(sc storeCfg, path []op) (res execResult) {
 				}
 				_ = b.Close()
 				cur = cur.apply(o.B)
+				if sc.settle {
+					if !mossSettle(st, &persisted) {
+						settleMissed.Add(1)
+					}
+				}
 			case 'o':
 				phase("open-reader")
 				rd, err := st.Reader()
@@ -1015,7 +1061,7 @@ func (c *checker) exec(sc storeCfg, path []op) (res execResult) {
 				if special != "" {
 					det += " (" + special + ")"
 				}
-				for _, cls := range classify(sc.name, view, held, snap, cur, o, got, want, special) {
+				for _, cls := range classify(sc.family(), view, held, snap, cur, o, got, want, special) {
 					add(cls, det, replayOf(sc.label(), path, tag, o, got, want))
 				}
 			}
